@@ -514,6 +514,178 @@ def receive_script_under_crash(ctx, res):
             shutil.rmtree(d, ignore_errors=True)
 
 
+def miner_shutdown_probe(ctx, res):
+    """the mining hand-out as the user sees it: the node's own MinerWatcher.__call__ on a real wallet file, a real node and a
+    scripted message queue. A miner's answer is a solution; the block is adopted and broadcast (it pays the reserved key) and then
+    the store fails / the user presses Ctrl-C before the watcher has switched to a fresh key; the watcher shuts down. The next start
+    (wallet.json loaded again) must not hand out the key that the broadcast block pays while unused keys remain; neither may it
+    after a Ctrl-C while the miner is idle, nor after an undisturbed find (monitors only; any problem in putting the scenario
+    together is counted as not-run, never reported)"""
+    import sqlite3
+    import skepticoin.mining as M
+    from . import node, c12
+    rng = ctx.rng
+    names = ("configure_logging_from_args", "check_chain_dir", "read_chain_from_disk", "start_networking_peer_in_background",
+             "wait_for_fresh_chain", "Process", "print", "time", "save_wallet", "open_or_init_wallet", "MAX_KNOWN_HASH_HEIGHT")
+    cons_names = ("scrypt", "MAX_KNOWN_HASH_HEIGHT", "KNOWN_HASHES", "BLOCKS_BETWEEN_TARGET_READJUSTMENT",
+                  "DESIRED_TARGET_READJUSTMENT_TIMESPAN", "SUBSIDY_HALVING_INTERVAL")
+    for mode in ("store_fails_after_broadcast", "interrupt_after_broadcast", "interrupt_idle", "undisturbed_find"):
+        saved = {n: getattr(M, n) for n in names if hasattr(M, n)}
+        saved_cons = {n: getattr(consensus, n) for n in cons_names}
+        halving = chain.HALVING[0]
+        cwd = os.getcwd()
+        d = tempfile.mkdtemp(prefix="skv-miner-")
+        rn = None
+        argv = sys.argv
+        try:
+            try:
+                chain.patch(horizon=-1)
+                keys = chain.Keys(rng, 5)
+                tree = chain.Tree(rng, keys)
+                tree.grow(rng.randrange(3, 6), fork_prob=0.0)
+                rn = node.RealNode(tree.cs, tree.blocks)
+                rn.add_peer(active=True)
+                hd = rn.cm.coinstate.head()
+                node.CLOCK[0] = hd.timestamp + 50
+                os.chdir(d)
+                wkeys = chain.Keys(rng, 4)
+                w0 = Wallet.empty()
+                for i in range(4):
+                    w0.keypairs[wkeys.pks[i]] = wkeys.sks[i].to_string()
+                    w0.unused_public_keys.append(wkeys.pks[i])
+                with open("wallet.json", "w") as f:
+                    w0.dump(f)
+                # the real save_wallet / open_or_init_wallet (c12's watcher replaces save_wallet in the module: put it back)
+                import skepticoin.wallet as WM
+                import skepticoin.scripts.utils as U
+                M.save_wallet = WM.save_wallet
+                M.open_or_init_wallet = U.open_or_init_wallet
+                M.configure_logging_from_args = lambda args: None
+                M.check_chain_dir = lambda: None
+                M.read_chain_from_disk = lambda: rn.cm.coinstate
+                M.start_networking_peer_in_background = lambda args, cs: thread
+                M.wait_for_fresh_chain = lambda thread_, freshness=0: None
+                M.print = lambda *a, **k: None
+                M.time = lambda: node.CLOCK[0]
+                M.MAX_KNOWN_HASH_HEIGHT = -1
+
+                class Thread(c12.FakeThread):
+                    def stop(self):
+                        pass
+
+                    def join(self):
+                        pass
+                thread = Thread(rn.lp)
+                rn.lp.show_stats = lambda: None
+
+                class Proc:
+                    def __init__(self, *a, **k):
+                        pass
+
+                    def start(self):
+                        pass
+
+                    def join(self):
+                        pass
+                M.Process = Proc
+                sys.argv = ["skepticoin-mine", "--quiet"]
+                watcher = M.MinerWatcher()
+                sys.argv = argv
+                watcher.print_stats_line = lambda ts: None
+                state = {"step": 0, "block": None}
+
+                class Q:
+                    def put(self, x):
+                        pass
+
+                    def get(self_):
+                        state["step"] += 1
+                        k = state["step"]
+                        if k == 1:
+                            if mode == "interrupt_idle":
+                                raise KeyboardInterrupt()
+                            watcher.send_queues = [Q()]
+                            found = c12.winning_nonce(rn.cm, list(rn.cm.transaction_pool), watcher.public_key, node.CLOCK[0],
+                                                      rng.randrange(0, 1 << 20))
+                            if found is None:
+                                state["no_nonce"] = True
+                                raise KeyboardInterrupt()
+                            return (0, "request_scrypt_input", found)
+                        if k == 2:
+                            summary, height, txs = watcher.mining_args[0]
+                            state["paid"] = watcher.public_key
+                            if mode == "store_fails_after_broadcast":
+                                def locked(block):
+                                    state["block"] = block
+                                    raise sqlite3.OperationalError("database is locked")
+                                rn.lp.disk_interface.save_block = locked
+                            elif mode == "interrupt_after_broadcast":
+                                def ctrl_c(block):
+                                    state["block"] = block
+                                    raise KeyboardInterrupt()
+                                rn.lp.disk_interface.save_block = ctrl_c
+                            else:
+                                real = rn.lp.disk_interface.save_block
+
+                                def keep(block):
+                                    state["block"] = block
+                                    return real(block)
+                                rn.lp.disk_interface.save_block = keep
+                            return (0, "scrypt_output", consensus.construct_summary_hash(summary, height))
+                        raise KeyboardInterrupt()
+                watcher.recv_queue = Q()
+            except Exception as e:
+                res.count("miner_shutdown:not-run:%s:%s" % (mode, type(e).__name__))
+                continue
+            try:
+                watcher()
+            except BaseException as e:
+                res.count("miner_shutdown:not-run:%s:watcher-raised-%s" % (mode, type(e).__name__))
+                continue
+            if state.get("no_nonce"):
+                res.count("miner_shutdown:no-nonce")
+                continue
+            block = state["block"]
+            if mode != "interrupt_idle" and block is None:
+                res.count("miner_shutdown:not-run:%s:no-block" % mode)
+                continue
+            try:
+                with open("wallet.json") as f:
+                    again = Wallet.load(f)
+                unused_left = len(again.unused_public_keys)
+                given = []
+                while again.unused_public_keys:
+                    given.append(again.get_annotated_public_key("reserved for potentially mined block"))
+                first = given[0] if given else None
+            except Exception as e:
+                res.violations.append({"kind": "after the miner shut down (%s) the wallet file cannot be loaded / hands out nothing: %r"
+                                               % (mode, e)})
+                continue
+            res.case(("miner-shutdown", mode), nontrivial=True)
+            res.count("miner_shutdown:" + mode)
+            if block is not None:
+                paid = [o.public_key.public_key for t in block.transactions for o in t.outputs]
+                adopted = block.hash() in rn.cm.coinstate.block_by_hash
+                again_paid = [k for k in given if k in paid]
+                if adopted and again_paid:
+                    first = again_paid[0]
+                    res.violations.append({"kind": "a key handed out for mining was handed out again by the next start although unused "
+                                                   "keys remain: the miner found a block paying it (adopted and broadcast), then shut "
+                                                   "down (%s), and the wallet file it left gives that key out as unused" % mode,
+                                           "key": first.hex(), "block": block.serialize().hex(), "unused_on_disk": unused_left})
+        finally:
+            sys.argv = argv
+            os.chdir(cwd)
+            for n, v in saved.items():
+                setattr(M, n, v)
+            for n, v in saved_cons.items():
+                setattr(consensus, n, v)
+            chain.HALVING[0] = halving
+            if rn is not None:
+                rn.close()
+            shutil.rmtree(d, ignore_errors=True)
+
+
 def run_c15(ctx):
     res = kit.Result()
     rng = ctx.rng
@@ -730,12 +902,15 @@ def run_c15(ctx):
                                            "calls": [c[:2] for c in calls][:8]})
         res.sample({"save_wallet_system_calls": [c[:2] if c[0] != "write" else ("write", c[1], len(c[2])) for c in calls][:6]})
     receive_script_under_crash(ctx, res)
+    miner_shutdown_probe(ctx, res)
     model = ctx.driver.ask(ops)
     kit.compare(res, ops, impl, model)
     res.rule = ("sequences of 25-60 operations on real Wallet objects (1-6 keys): hand-outs (with random.choice controlled), "
                 "restores (also of unannotated keys), and save_wallet + Wallet.load through real files; wallet digest compared "
                 "with the model after every operation; monitor: no key handed out twice while unused keys remain unless "
                 "restored, file fidelity; the real save_wallet under strace: its system calls must be open(new, O_TRUNC), "
-                "writes, rename(new, wallet.json) and a crash is simulated after every call. Distinct non-trivial = operations "
-                "and crash points")
+                "writes, rename(new, wallet.json) and a crash is simulated after every call; the real receive script with the "
+                "process dying inside the save; the real MinerWatcher.__call__ (collaborators replaced, real wallet file, real node) "
+                "to a found block followed by a store failure / Ctrl-C / nothing, then a restart: no key paid by a broadcast block "
+                "is handed out again. Distinct non-trivial = operations and crash points")
     return res
